@@ -77,17 +77,29 @@ func (idx Index) ToFile(indexPath string) error {
 	errPrefix := fmt.Sprintf("writing index to %s", indexPath)
 	// TODO: If we stop relying on the project-wide lock file, this should be
 	// flocked.
-	file, err := os.Create(indexPath)
+	// Write to a temporary file and rename it into place, so that an
+	// interrupted write never leaves a truncated index behind.
+	tempPath := indexPath + ".tmp"
+	file, err := os.Create(tempPath)
 	if err != nil {
 		return errors.Wrap(err, errPrefix)
 	}
-	defer file.Close()
 
 	// Sort the stage paths so the index file is written deterministically.
 	for _, stagePath := range idx.SortStagePaths() {
 		if _, err := fmt.Fprintln(file, stagePath); err != nil {
+			file.Close()
+			os.Remove(tempPath)
 			return errors.Wrapf(err, "%s: write %s", errPrefix, stagePath)
 		}
+	}
+	if err := file.Close(); err != nil {
+		os.Remove(tempPath)
+		return errors.Wrap(err, errPrefix)
+	}
+	if err := os.Rename(tempPath, indexPath); err != nil {
+		os.Remove(tempPath)
+		return errors.Wrap(err, errPrefix)
 	}
 	return nil
 }
